@@ -737,6 +737,6 @@ func TestProp(t *testing.T) {
 		vt.Func[HashCase]{Name: "hash-short", One: runHash, Body: hashExhaustive},
 		vt.Sub[HashCase]{Prop: prop, Name: "hash", Gen: genHash, Run: runHash,
 			Classify: func(c HashCase) (bool, []string) { return len(c.Name) > 0, []string{fmt.Sprintf("len%%12=%d", len(c.Name)%12)} }}.WithBudget(100000, 1500000),
-		vt.Sub[Case]{Prop: prop, Name: "history", Gen: genCase, Run: run, Classify: classify}.WithBudget(12000, 150000),
+		vt.Sub[Case]{Prop: prop, Name: "history", Gen: genCase, Run: run, Classify: classify}.WithBudget(30000, 150000),
 	)
 }
